@@ -1,1 +1,97 @@
-/-! C09 — property theorems (none yet). -/
+import Req.Pool.Lockset
+import Req.Lemmas.C09Lockset
+/-!
+C09 — property theorems.
+
+Lock-set part
+* `lockset_ordered`  : two accesses by different threads made under a common lock are ordered
+                       by happens-before.
+* `lockset_sound`    : if every access to `x` holds a common lock, no execution (well-formed
+                       trace) contains a race on `x`.
+* `static_lockset_sound` : the same from STATIC facts — if every access site of `x` lists `l`
+                       and the trace conforms to the sites, there is no race on `x`.
+* `guarded_gives_common` : the executable table check `guarded` really yields a lock that is
+                       in every (non-setup) site's lock set.
+The regenerated table itself is discharged in `lean/Bridge/C09.lean` (`anchored_fields_guarded`).
+-/
+namespace Req.Props.C09
+open Req.Pool.Lockset Req.Lemmas.C09Lockset
+
+/-- Two accesses by different threads, both made while holding `l`, are ordered. -/
+theorem lockset_ordered (tr : List Ev) (hwf : WF tr) (l : Lock) (i j : Nat) (t₁ t₂ : Tid)
+    (x₁ x₂ : Loc) (w₁ w₂ : Bool) (hij : i < j) (hne : t₁ ≠ t₂)
+    (hi : tr[i]? = some (.acc t₁ x₁ w₁)) (hj : tr[j]? = some (.acc t₂ x₂ w₂))
+    (h1 : HoldsAt tr i t₁ l) (h2 : HoldsAt tr j t₂ l) : HB tr i j := by
+  obtain ⟨d, rfl⟩ : ∃ d, j = i + d := ⟨j - i, by omega⟩
+  obtain ⟨r, a, hr, hra, haj, her, hea⟩ := handoff_between tr hwf l t₁ t₂ hne i d h1 h2
+  have hir : i < r := by
+    rcases Nat.lt_or_ge i r with h | h
+    · exact h
+    · have : r = i := by omega
+      subst this; rw [hi] at her; cases her
+  exact HB.trans (HB.po hir hi her rfl) (HB.trans (HB.sync hra her hea) (HB.po haj hea hj rfl))
+
+/-- **lockset_sound** — the classical lock-set theorem: in every well-formed execution, if all
+accesses to `x` are made while holding one common lock `l`, no two accesses to `x` by different
+threads are concurrent (unordered by happens-before); in particular there is no data race on `x`. -/
+theorem lockset_sound (tr : List Ev) (hwf : WF tr) (x : Loc) (l : Lock)
+    (hg : Guarded tr x l) : ¬ Race tr x := by
+  rintro ⟨i, j, t₁, t₂, w₁, w₂, hij, hi, hj, hne, _, hnhb⟩
+  exact hnhb (lockset_ordered tr hwf l i j t₁ t₂ x x w₁ w₂ hij hne hi hj (hg i t₁ w₁ hi) (hg j t₂ w₂ hj))
+
+/-- **static_lockset_sound** — from static facts: `l` is in the lock set of every access site
+of `x`, and the execution conforms to the sites ⇒ no race on `x`. -/
+theorem static_lockset_sound (facts : StaticFacts) (tr : List Ev) (hwf : WF tr)
+    (hc : Conforms facts tr) (x : Loc) (l : Lock) (hall : ∀ s ∈ facts x, l ∈ s) : ¬ Race tr x := by
+  apply lockset_sound tr hwf x l
+  intro i t w hi
+  obtain ⟨s, hs, hh⟩ := hc i t x w hi
+  exact hh l (hall s hs)
+
+/-- **guarded_gives_common** — the executable check is sound: when `guarded as` holds and some
+non-setup site exists, there is a lock contained in the lock set of every non-setup site. -/
+theorem guarded_gives_common (as : List Access) (hg : guarded as = true) (hne : live as ≠ []) :
+    ∃ l, ∀ a ∈ live as, l ∈ a.held := by
+  unfold guarded at hg
+  have hc : (commonLocks as).isEmpty = false := by
+    cases h : (live as).isEmpty with
+    | true => simp [List.isEmpty_iff] at h; exact absurd h hne
+    | false => simpa [h] using hg
+  unfold commonLocks at hc
+  cases hl : live as with
+  | nil => exact absurd hl hne
+  | cons a rest =>
+    rw [hl] at hc
+    simp only at hc
+    cases hf : a.held.filter (fun l => rest.all (fun b => b.held.contains l)) with
+    | nil => rw [hf] at hc; simp at hc
+    | cons l _ =>
+      have hmem : l ∈ a.held.filter (fun l => rest.all (fun b => b.held.contains l)) := by
+        rw [hf]; exact List.mem_cons_self
+      rw [List.mem_filter] at hmem
+      refine ⟨l, ?_⟩
+      intro b hb
+      rcases List.mem_cons.mp hb with rfl | hb
+      · exact hmem.1
+      · have := List.all_eq_true.mp hmem.2 b hb
+        simpa using this
+
+/-! Non-vacuity. -/
+
+/-- A well-formed two-thread trace in which both threads write `x = 7` under lock 1. -/
+def exTrace : List Ev :=
+  [.acq 1 1, .acc 1 7 true, .rel 1 1, .acq 2 1, .acc 2 7 true, .rel 2 1]
+
+example : holders (exTrace.take 1) 1 = some 1 := by decide
+example : holders (exTrace.take 4) 1 = some 2 := by decide
+/-- and an ill-disciplined one (thread 2 does not take the lock): the hypotheses of
+`lockset_sound` genuinely exclude it. -/
+example : holders ([Ev.acq 1 1, .acc 1 7 true, .acc 2 7 true].take 2) 1 ≠ some 2 := by decide
+
+/-- The table check distinguishes a guarded from an unguarded field. -/
+example : guarded [⟨[1], true, false, [5]⟩, ⟨[2], false, false, [4, 5]⟩] = true := by decide
+example : guarded [⟨[1], true, false, [5]⟩, ⟨[2], false, false, []⟩] = false := by decide
+example : verdict [⟨[1], true, false, [5]⟩, ⟨[1], true, false, [5]⟩, ⟨[2], false, false, []⟩]
+    = .unguarded 5 [[2]] := by decide
+
+end Req.Props.C09
